@@ -136,7 +136,7 @@ def replay(case):
         from . import bigops
 
         ctx = bigops.Ctx()
-        {"repr": bigops.repr_family, "collapse-mapping": bigops.collapse_mapping_family, "numpy-length": bigops.numpy_length_family, "reindexed-merge": bigops.reindexed_merge_family}.get(case["op"]["big"] if isinstance(case["op"]["big"], str) else "", bigops.big_family)(ctx, case.get("tier", "quick"))
+        {"repr": bigops.repr_family, "collapse-mapping": bigops.collapse_mapping_family, "numpy-length": bigops.numpy_length_family, "reindexed-merge": bigops.reindexed_merge_family, "indx-narrow": bigops.indx_family}.get(case["op"]["big"] if isinstance(case["op"]["big"], str) else "", bigops.big_family)(ctx, case.get("tier", "quick"))
         viol = [v for v in ctx.viol if v["op"] == case["op"]]
         for v in viol:
             print("  [%s] %s :: %s" % (v["property"], v["site"], v["detail"][:400]))
